@@ -38,9 +38,15 @@ def after(ctx, rng, desc):
     if ctx.cfg['arch_version'] >= 7:
         r.sctlr.u = 1
     if ctx.prot == 'mpu':
+        if rng.random() < 0.5 and not desc.get('mon_ns1'):
+            # half of these cases in User mode: the privileged-only region (0x1000..0x1FFF) then denies loads as well
+            r.cpsr.m = 0b10000
+            desc['mode'] = 'usr'
+        edges = [0x1000, 0x1000, 0x1000, 0x2000] + MPU_EDGES
         for n in range(15):
             if rng.random() < 0.75:
-                r.set(n, (rng.choice(MPU_EDGES) + 4 * rng.randrange(-6, 3)) & 0xFFFFFFFF)
+                r.set(n, (rng.choice(edges) + 4 * rng.randrange(-6, 3)) & 0xFFFFFFFF)
+        desc['cpsr'] = '%#010x' % r.cpsr.value
         desc['regs'] = ['%#x' % r.get(n) for n in range(15)]
 
 
